@@ -1,0 +1,346 @@
+//go:build verif
+// +build verif
+
+package downloader
+
+// Thin exports of the unexported download scheduler (`queue`, `peerConnection`, `fetchRequest`,
+// `fetchResult`) for the external verification harness (property C18). Every method forwards to
+// the method of the same name with the same arguments; nothing here changes behaviour. The only
+// additions are read-only observation (VerifPools, taken under q.lock) and knobs for package
+// variables that are ordinary `var`s already. Compiled only with -tags verif.
+
+import (
+	"sort"
+	"sync/atomic"
+	"time"
+
+	"github.com/youchainhq/go-youchain/common"
+	"github.com/youchainhq/go-youchain/core/types"
+	"github.com/youchainhq/go-youchain/logging"
+)
+
+// VerifQueue wraps a *queue.
+type VerifQueue struct{ q *queue }
+
+// VerifPeer wraps a *peerConnection (no network peer behind it).
+type VerifPeer struct{ p *peerConnection }
+
+// VerifRequest wraps a *fetchRequest. Hashes/Numbers are captured when the request is handed out
+// (the queue nils entries of request.Headers on delivery).
+type VerifRequest struct {
+	r       *fetchRequest
+	PeerID  string
+	Hashes  []common.Hash
+	Numbers []uint64
+}
+
+// VerifResult is a copy of the fields of a fetchResult.
+type VerifResult struct {
+	Pending      int
+	Hash         common.Hash
+	Header       *types.Header
+	Transactions types.Transactions
+	Receipts     types.Receipts
+}
+
+// VerifSlot describes one non-nil entry of resultCache.
+type VerifSlot struct {
+	Index   int
+	Number  uint64
+	Hash    common.Hash
+	Pending int
+	NumTxs  int
+}
+
+// VerifPoolsSnapshot is what VerifPools returns.
+type VerifPoolsSnapshot struct {
+	TaskPool     []common.Hash            // keys of blockTaskPool
+	TaskQueue    []common.Hash            // contents of blockTaskQueue (multiset, ascending number)
+	Pending      map[string][]common.Hash // blockPendPool: peer id -> requested headers
+	Done         []common.Hash            // keys of blockDonePool
+	RTaskPool    []common.Hash            // the same four for receipts
+	RTaskQueue   []common.Hash
+	RPending     map[string][]common.Hash
+	RDone        []common.Hash
+	Cache        []VerifSlot // non-nil resultCache entries
+	CacheLen     int
+	ResultOffset uint64
+	Closed       bool
+}
+
+// VerifSetCacheLimits sets blockCacheItems / blockCacheMemory (package vars read by newQueue and
+// resultSlots) and returns the previous values. Values <= 0 leave the variable unchanged.
+func VerifSetCacheLimits(items, memory int) (int, int) {
+	oi, om := blockCacheItems, blockCacheMemory
+	if items > 0 {
+		blockCacheItems = items
+	}
+	if memory > 0 {
+		blockCacheMemory = memory
+	}
+	return oi, om
+}
+
+// VerifSetMaxResultsProcess sets maxResultsProcess (package var) and returns the previous value.
+func VerifSetMaxResultsProcess(n int) int {
+	o := maxResultsProcess
+	if n > 0 {
+		maxResultsProcess = n
+	}
+	return o
+}
+
+// VerifSetTimings sets the RTT/TTL package vars (so that request expiry of the real Downloader
+// happens in milliseconds in the end-to-end workload). Zero values leave a variable unchanged.
+func VerifSetTimings(rttMin, rttMax, ttl, headerContCheck time.Duration) {
+	if rttMin > 0 {
+		rttMinEstimate = rttMin
+	}
+	if rttMax > 0 {
+		rttMaxEstimate = rttMax
+	}
+	if ttl > 0 {
+		ttlLimit = ttl
+	}
+	if headerContCheck > 0 {
+		fsHeaderContCheck = headerContCheck
+	}
+}
+
+// VerifSetProcessLimits sets maxHeadersProcess / maxQueuedHeaders (package vars).
+func VerifSetProcessLimits(headersProcess, queuedHeaders int) {
+	if headersProcess > 0 {
+		maxHeadersProcess = headersProcess
+	}
+	if queuedHeaders > 0 {
+		maxQueuedHeaders = queuedHeaders
+	}
+}
+
+// VerifErrKind names the package's unexported sentinel errors.
+func VerifErrKind(err error) string {
+	switch err {
+	case nil:
+		return ""
+	case errNoFetchesPending:
+		return "no-fetches-pending"
+	case errStaleDelivery:
+		return "stale-delivery"
+	case errInvalidChain:
+		return "invalid-chain"
+	case errInvalidBody:
+		return "invalid-body"
+	case errInvalidReceipt:
+		return "invalid-receipt"
+	case errBusy:
+		return "busy"
+	case errBadPeer:
+		return "bad-peer"
+	case errStallingPeer:
+		return "stalling-peer"
+	case errTimeout:
+		return "timeout"
+	case errNoSyncActive:
+		return "no-sync-active"
+	case errCanceled:
+		return "canceled"
+	case errNoPeers:
+		return "no-peers"
+	case errPeersUnavailable:
+		return "peers-unavailable"
+	case errUnknownPeer:
+		return "unknown-peer"
+	case errEmptyHeaderSet:
+		return "empty-header-set"
+	case errInvalidAncestor:
+		return "invalid-ancestor"
+	case errCancelHeaderFetch:
+		return "cancel-header-fetch"
+	case errCancelContentProcessing:
+		return "cancel-content-processing"
+	}
+	return "other: " + err.Error()
+}
+
+func VerifNewQueue() *VerifQueue { return &VerifQueue{q: newQueue()} }
+
+func VerifNewPeer(id string) *VerifPeer {
+	return &VerifPeer{p: newPeerConnection(id, nil, logging.New("peer", id))}
+}
+
+func (p *VerifPeer) ID() string                          { return p.p.id }
+func (p *VerifPeer) Lacks(h common.Hash) bool            { return p.p.Lacks(h) }
+func (p *VerifPeer) MarkLacking(h common.Hash)           { p.p.MarkLacking(h) }
+func (p *VerifPeer) Reset()                              { p.p.Reset() }
+func (p *VerifPeer) BlockCapacity(rtt time.Duration) int { return p.p.BlockCapacity(rtt) }
+
+func (v *VerifQueue) Prepare(offset uint64, mode SyncMode) { v.q.Prepare(offset, mode) }
+func (v *VerifQueue) Reset()                               { v.q.Reset() }
+func (v *VerifQueue) Close()                               { v.q.Close() }
+func (v *VerifQueue) PendingBlocks() int                   { return v.q.PendingBlocks() }
+func (v *VerifQueue) PendingReceipts() int                 { return v.q.PendingReceipts() }
+func (v *VerifQueue) InFlightBlocks() bool                 { return v.q.InFlightBlocks() }
+func (v *VerifQueue) InFlightReceipts() bool               { return v.q.InFlightReceipts() }
+func (v *VerifQueue) Idle() bool                           { return v.q.Idle() }
+func (v *VerifQueue) ShouldThrottleBlocks() bool           { return v.q.ShouldThrottleBlocks() }
+func (v *VerifQueue) ShouldThrottleReceipts() bool         { return v.q.ShouldThrottleReceipts() }
+
+func (v *VerifQueue) Schedule(headers []*types.Header, from uint64) []*types.Header {
+	return v.q.Schedule(headers, from)
+}
+
+func wrapRequest(r *fetchRequest) *VerifRequest {
+	if r == nil {
+		return nil
+	}
+	w := &VerifRequest{r: r, PeerID: r.Peer.id}
+	for _, h := range r.Headers {
+		w.Hashes = append(w.Hashes, h.Hash())
+		w.Numbers = append(w.Numbers, h.Number.Uint64())
+	}
+	return w
+}
+
+func (v *VerifQueue) ReserveBodies(p *VerifPeer, count int) (*VerifRequest, bool, error) {
+	r, progress, err := v.q.ReserveBodies(p.p, count)
+	return wrapRequest(r), progress, err
+}
+
+func (v *VerifQueue) ReserveReceipts(p *VerifPeer, count int) (*VerifRequest, bool, error) {
+	r, progress, err := v.q.ReserveReceipts(p.p, count)
+	return wrapRequest(r), progress, err
+}
+
+func (v *VerifQueue) DeliverBodies(id string, txLists [][]*types.Transaction) (int, error) {
+	return v.q.DeliverBodies(id, txLists)
+}
+
+func (v *VerifQueue) DeliverReceipts(id string, receipts [][]*types.Receipt) (int, error) {
+	return v.q.DeliverReceipts(id, receipts)
+}
+
+func (v *VerifQueue) CancelBodies(r *VerifRequest)   { v.q.CancelBodies(r.r) }
+func (v *VerifQueue) CancelReceipts(r *VerifRequest) { v.q.CancelReceipts(r.r) }
+
+func (v *VerifQueue) ExpireBodies(timeout time.Duration) map[string]int {
+	return v.q.ExpireBodies(timeout)
+}
+
+func (v *VerifQueue) ExpireReceipts(timeout time.Duration) map[string]int {
+	return v.q.ExpireReceipts(timeout)
+}
+
+func (v *VerifQueue) Revoke(id string) { v.q.Revoke(id) }
+
+func (v *VerifQueue) Results(block bool) []VerifResult {
+	rs := v.q.Results(block)
+	if rs == nil {
+		return nil
+	}
+	out := make([]VerifResult, len(rs))
+	for i, r := range rs {
+		out[i] = VerifResult{Pending: r.Pending, Hash: r.Hash, Header: r.Header, Transactions: r.Transactions, Receipts: r.Receipts}
+	}
+	return out
+}
+
+// Age moves the request's start time d into the past (the harness' logical clock for
+// ExpireBodies/ExpireReceipts), under the queue lock.
+func (v *VerifQueue) Age(r *VerifRequest, d time.Duration) {
+	v.q.lock.Lock()
+	r.r.Time = r.r.Time.Add(-d)
+	v.q.lock.Unlock()
+}
+
+// VerifPools returns, under q.lock, the content of every body/receipt bookkeeping structure.
+// The priority queues have no iteration API: they are drained and refilled with the same
+// (item, priority) pairs, which leaves the same multiset behind.
+func (v *VerifQueue) VerifPools() *VerifPoolsSnapshot {
+	q := v.q
+	q.lock.Lock()
+	defer q.lock.Unlock()
+
+	s := &VerifPoolsSnapshot{
+		Pending:      make(map[string][]common.Hash),
+		RPending:     make(map[string][]common.Hash),
+		CacheLen:     len(q.resultCache),
+		ResultOffset: q.resultOffset,
+		Closed:       q.closed,
+	}
+	for h := range q.blockTaskPool {
+		s.TaskPool = append(s.TaskPool, h)
+	}
+	for h := range q.receiptTaskPool {
+		s.RTaskPool = append(s.RTaskPool, h)
+	}
+	for h := range q.blockDonePool {
+		s.Done = append(s.Done, h)
+	}
+	for h := range q.receiptDonePool {
+		s.RDone = append(s.RDone, h)
+	}
+	type pe struct {
+		item interface{}
+		prio int64
+	}
+	var tmp []pe
+	for !q.blockTaskQueue.Empty() {
+		it, pr := q.blockTaskQueue.Pop()
+		tmp = append(tmp, pe{it, pr})
+		s.TaskQueue = append(s.TaskQueue, it.(*types.Header).Hash())
+	}
+	for _, e := range tmp {
+		q.blockTaskQueue.Push(e.item, e.prio)
+	}
+	tmp = tmp[:0]
+	for !q.receiptTaskQueue.Empty() {
+		it, pr := q.receiptTaskQueue.Pop()
+		tmp = append(tmp, pe{it, pr})
+		s.RTaskQueue = append(s.RTaskQueue, it.(*types.Header).Hash())
+	}
+	for _, e := range tmp {
+		q.receiptTaskQueue.Push(e.item, e.prio)
+	}
+	for id, r := range q.blockPendPool {
+		hs := make([]common.Hash, 0, len(r.Headers))
+		for _, h := range r.Headers {
+			if h != nil {
+				hs = append(hs, h.Hash())
+			}
+		}
+		s.Pending[id] = hs
+	}
+	for id, r := range q.receiptPendPool {
+		hs := make([]common.Hash, 0, len(r.Headers))
+		for _, h := range r.Headers {
+			if h != nil {
+				hs = append(hs, h.Hash())
+			}
+		}
+		s.RPending[id] = hs
+	}
+	for i, r := range q.resultCache {
+		if r != nil {
+			s.Cache = append(s.Cache, VerifSlot{Index: i, Number: r.Header.Number.Uint64(), Hash: r.Hash, Pending: r.Pending, NumTxs: len(r.Transactions)})
+		}
+	}
+	return s
+}
+
+// VerifBusyWithoutRequest lists the registered peers whose body-fetch flag says "busy" while the
+// queue holds no body request for them (observation only).
+func (d *Downloader) VerifBusyWithoutRequest() []string {
+	var out []string
+	for _, p := range d.peers.AllPeers() {
+		if atomic.LoadInt32(&p.blockIdle) == 1 {
+			d.queue.lock.Lock()
+			_, ok := d.queue.blockPendPool[p.id]
+			d.queue.lock.Unlock()
+			if !ok {
+				out = append(out, p.id)
+			}
+		}
+	}
+	sort.Strings(out)
+	return out
+}
